@@ -130,14 +130,27 @@ def run(ctx):
                 if isinstance(v, ast.Name):
                     ds = local_defs(dt).get(v.id, [])
                     v = ds[0] if len(ds) == 1 else v
-                txt = norm(v)
+                def values_of_every_node(e):
+                    """map(attrgetter('value'), L) / (n.value for n in L) / [n.value for n in L] — every node, in order"""
+                    if isinstance(e, ast.Call) and norm(e.func) == "map" and len(e.args) == 2:
+                        fn = e.args[0]
+                        if isinstance(fn, ast.Call) and norm(fn.func).rpartition(".")[2] == "attrgetter" and len(fn.args) == 1 and isinstance(fn.args[0], ast.Constant) and fn.args[0].value == "value":
+                            return True
+                        if isinstance(fn, ast.Lambda) and len(fn.args.args) == 1 and norm(fn.body) == fn.args.args[0].arg + ".value":
+                            return True
+                    if isinstance(e, (ast.GeneratorExp, ast.ListComp)) and len(e.generators) == 1:
+                        g = e.generators[0]
+                        return not g.ifs and isinstance(g.target, ast.Name) and norm(e.elt) == g.target.id + ".value"
+                    return False
+
                 ok2 = (
                     isinstance(v, ast.Call)
                     and isinstance(v.func, ast.Attribute)
                     and v.func.attr == "join"
                     and isinstance(v.func.value, ast.Constant)
                     and v.func.value.value == ""
-                    and "attrgetter('value')" in txt
+                    and len(v.args) == 1
+                    and values_of_every_node(v.args[0])
                 )
                 ctx.ob(
                     "C07.write",
@@ -304,6 +317,9 @@ def run(ctx):
         nonlocal f, ok
         # -------------------------------------------------------------- header
         n_h = 0
+        from ..core import RefGraph
+
+        graph_h = RefGraph(index)
         for f in index.nontest_funcs():
             if f.mod.name != "cdd.shared.ast_cst_utils":
                 continue
@@ -314,16 +330,20 @@ def run(ctx):
             ]
             if not builds:
                 continue
-            # does it render parameters from an arguments object itself? (reads `.arg` of elements)
-            renders = any(isinstance(n, ast.Attribute) and n.attr == "arg" for n in iter_own(f.node))
+            # does it render parameters from an arguments object itself? (reads `.arg` of elements) — in its own
+            # body or in a private helper it calls / maps over the arguments
+            from ..region import Region
+
+            own = [n for _g, n in Region(index, graph_h, f, allow_passed=True).nodes()]
+            renders = any(isinstance(n, ast.Attribute) and n.attr == "arg" for n in own)
             if not renders:
                 continue
             n_h += 1
-            read = {n.attr for n in iter_own(f.node) if isinstance(n, ast.Attribute) and n.attr in ARGUMENTS_FIELDS}
-            read |= {c for n in iter_own(f.node) if isinstance(n, ast.Constant) and isinstance(n.value, str) for c in ARGUMENTS_FIELDS if c in n.value.split(".")}
+            read = {n.attr for n in own if isinstance(n, ast.Attribute) and n.attr in ARGUMENTS_FIELDS}
+            read |= {c for n in own if isinstance(n, ast.Constant) and isinstance(n.value, str) for c in ARGUMENTS_FIELDS if c in n.value.split(".")}
             delegates = any(
                 isinstance(n, ast.Call) and norm(n.func) in ("to_code", "ast.unparse", "unparse") and n.args and norm(n.args[0]).endswith(".args")
-                for n in iter_own(f.node)
+                for n in own
             )
             missing = [x for x in ARGUMENTS_FIELDS if x not in read]
             ok = delegates or not missing
